@@ -90,6 +90,11 @@ CHECKS["C16"] = ("exploration",
   "96/1600 Main() calls, each with 2-5 model sources (2-30 keys each over several databases in all physical encodings, TTL none/long) and one model target: scripted SCAN pagination (single page, COUNT-sized, ragged pages with empty ones and sizes != COUNT, arbitrary cursor chains ending in 0), keys vanishing before DUMP or between DUMP and PTTL, big_key_threshold {60,120,400,50 MiB} so that element-wise expansion and plain RESTORE both occur, key_exists none/rewrite with pre-existing target keys, target.db, db/key filters, key-file driven scans with a listed but non-existent key. The target must hold exactly the expected keys: logical value, remaining TTL within the run's duration, right database; nothing else written; Main returns.",
   "Trusted: lib/miniredis as source and target, lib/rdbgen payloads. Cloud scanners and cluster targets out of reach; pttl == 0 not generated.", "DESIGN.md §5/C16")
 
+CHECKS["C19"] = ("exploration",
+  "output-scanning monitor: every run path executed in a child whose logger is redirected to a file, with distinct sentinel passwords that the fake peers require; every byte logged/printed and the renderings of the status documents are scanned for the sentinels",
+  "9 scenarios (CmdSync.Main with full + incremental phase and a dropped source link, resume with checkpoint load, restart loop after a refused PSYNC until the tool's retry budget ends the process, restore mode, rump, dump, shard supervisor with failing nodes, checkpoint load incl. a wrong password, status documents) x log levels {debug, info, warn, error} = 36 child runs; about 100 KB of log output per sweep plus json/%v/%+v of conf.GetSafeOptions(), metric.NewMetricRest() and GetDetailedInfo() are scanned for both sentinels. The sentinels derive from VERIF_SEED.",
+  "Trusted: nothing beyond substring search. The HTTP server and startup echo of redis-shake/main (does not build) are covered through the expressions they serve.", "DESIGN.md §5/C19")
+
 PENDING_REASON = "monitor not built yet in this revision of /verif (planned in DESIGN.md §5); no claim is made"
 
 def main():
